@@ -7,7 +7,8 @@ use crate::shim::*;
 use crate::util::*;
 use crate::wire::{self, PVal, Param};
 
-const NEAR_MISS: [&str; 18] = [
+const NEAR_MISS: [&str; 30] = [
+    "/* app=orm */ SELECT @@max_allowed_packet", "/* x */USE db", "/*!40101 SET NAMES utf8 */", "/**/", "/* x */ select 1", "-- c\nSELECT @@x", "# c\nUSE db", "(SELECT @@x)", ";USE db", "/*!40101 SET NAMES utf8 */;", "/* unterminated SELECT @@x", "/* a */ /* b */ USE `db`;",
     "SELECT @x", "SELECT @", "SELECT  @@x", "select@@x", "SELECT@@x", " SELECT @@x", "Select 1", "USER()", "USEfoo", "used", "use", "us", "USE", "u", "SELECT",
     "select @", "usefoo", "SELECT @ @x",
 ];
